@@ -101,7 +101,7 @@ def dependency_requires_value(ui_json: dict[str, dict], parameter: str) -> bool:
         is_required = not ui_json[dependency].get(key, True)
 
     if ("optional" in ui_json[parameter]) & is_required:
-        is_required = ui_json[parameter]["enabled"]
+        is_required = ui_json[parameter].get("enabled", True)
 
     return is_required
 
